@@ -298,7 +298,7 @@ def main():
             unrec('get_explicitly_used_regs body: %s' % body[:120])
     else:
         unrec('get_explicitly_used_regs not found')
-    if deep is None: deep = False
+    if deep is None: deep = True     # unrecognised: keep modelling the last recognised (current) scan; the note fails the tie
 
     check_pinned(stackless)
 
